@@ -3,8 +3,11 @@
 (1) TLC model-checks spec/Contract.tla (IDEAL): every prior state of three keys (live / deleted / never written) x
     every program of the harness's kernel contract up to the configured length (get / put / del / range scan /
     nested call / transfer out of the contract / event / resource use / failing, with Go error or with status 500)
-    x amount sent along x another client's interleaved write x every single tampering of the assembled transaction,
-    against: the honest transaction is admitted on the same state (HonestAccepted), a commit changes exactly the keys
+    x amount sent along x another client's interleaved write x every single tampering of the assembled transaction
+    (the declared write set is a LIST: records dropped / added / altered / replaced by a copy of another record /
+    appended for a written key / repeated / swapped / re-labelled to another contract's bucket; read records altered /
+    dropped / added / repeated with a current or a stale version; contract outputs redirected / dropped / reduced /
+    frozen; contract inputs omitted / extra / spent undeclared; ...), against: the honest transaction is admitted on the same state (HonestAccepted), a commit changes exactly the keys
     / balances of the write set (CommitExact), every tampering that claims something the execution does not produce
     or pays less is refused (TamperRejected), a stale declared read is refused (StaleRejected), whatever is admitted
     re-executes over its own declared reads to its own declared effects and pays for it (AdmittedSound), a refused
@@ -12,7 +15,11 @@
 (2) TLC simulates the same spec and dumps cases; (3) harness/cmd/c09 runs every case on a real node: real setup
     transactions, the engine's own Chain.PreExec, the transaction assembled from the response as a client does,
     tampered, signed, State.VerifyTx + State.DoTx, projection of keys (value + version) and balances after every
-    step; (4) TLC validates the recording against Trace_Contract.tla (the Go side never judges).
+    step - the keys by four readers: the executing node (warm version cache), a second node that has nothing but the
+    stored data (plus, for every third case, a node reopened on a copy of the data), a range read on each, and the
+    write record each stored version (transaction id, offset) refers to; odd cases use a bucket that sorts after the
+    transient bucket, so that event / contract-utxo records precede the contract's writes in the write set;
+    (4) TLC validates the recording against Trace_Contract.tla (the Go side never judges).
 Known deviations (DESIGN section 4) are spec constants KF_*; only those listed as `known:` in
 /verif/KNOWN_FINDINGS.txt or (proposed, until the main session decides) /verif/findings/C09.known are enabled."""
 import json, os, re
@@ -22,7 +29,7 @@ import tracecheck
 
 KFS = ["KF_ContractUtxoUnbound", "KF_FailedStatusAccepted", "KF_NestedUseUncounted"]
 PROPOSED = os.path.join(vp.VERIF, "findings", "C09.known")
-MUST_REJECT = ["read_ver", "write_drop", "write_add", "write_val", "write_dup", "write_app", "limit_below", "fee_below", "amt_req",
+MUST_REJECT = ["read_ver", "write_drop", "write_add", "write_val", "write_dup", "write_app", "write_bucket", "cin_steal", "limit_below", "fee_below", "amt_req",
                "amt_out", "ev_alter", "ev_drop", "ctr_alter", "redirect", "cout_drop", "cout_less", "cout_freeze", "cin_omit", "cin_extra"]
 
 
@@ -144,13 +151,20 @@ def binding_selftest(run, behs, kf, consts):
     key = json.loads(json.dumps(ev))
     key[pre]["obs"]["resp"]["gas"] += 1
     cut = ev[:pre] + ev[pre + 1:]
-    for what, tr in (("result flipped", flip), ("balance altered", bal), ("response altered", key), ("line removed", cut)):
+    cold = json.loads(json.dumps(ev))
+    cold[adm]["obs"]["cold"][0]["val"] += "x"
+    ref = json.loads(json.dumps(ev))
+    ref[adm]["obs"]["ref"][0] = -2
+    scan = json.loads(json.dumps(ev))
+    scan[adm]["obs"]["cscan"] = scan[adm]["obs"]["cscan"] + [0]
+    for what, tr in (("result flipped", flip), ("balance altered", bal), ("response altered", key), ("line removed", cut),
+                     ("cache-free read altered", cold), ("version reference altered", ref), ("cache-free range read altered", scan)):
         p = os.path.join(run.work, "st_bad.ndjson")
         vp.write_ndjson(p, tr)
         res = run.tlc_validate("Trace_Contract.tla", "Trace_Contract.cfg", p, name="st_val", consts=kf_consts)
         if res["hw"] == res["len"] + 1:
             raise vp.Undecided("binding self-test: the trace specification accepts a corrupted recording (%s)" % what)
-    run.cov["binding_selftest"] = "4 corrupted recordings rejected"
+    run.cov["binding_selftest"] = "7 corrupted recordings rejected"
     os.remove(trace)
 
 
@@ -172,13 +186,13 @@ def check(run):
     # programs that write several keys next to events and transfers (whose records share the write set with the contract's own
     # writes), and the tamperings of the write / read LIST: a record repeated in place of another one, appended, swapped
     lists = {"MaxSteps": 5, "StepOps": '{"get", "put", "del", "xfer", "emit"}',
-             "TamperKinds": '{"none", "write_dup", "write_swap", "write_app", "write_rep", "read_dup", "write_drop", "write_val", "ev_drop", "ctr_alter", "cout_drop", "cout_less", "cout_freeze"}'}
+             "TamperKinds": '{"none", "write_dup", "write_swap", "write_app", "write_rep", "write_bucket", "read_dup", "write_drop", "write_val", "ev_drop", "ctr_alter", "cout_drop", "cout_less", "cout_freeze"}'}
     if quick:
         plans = [(2400, full), (600, short), (600, rich), (900, lists)]
-        mcs = [("MC_Contract.cfg", 600), ("MC_Contract_arg.cfg", 300)]
+        mcs = [("MC_Contract.cfg", 600, 12), ("MC_Contract_arg.cfg", 300, 3)]
     else:
         plans = [(16000, full), (6000, short), (8000, rich), (6000, lists)]
-        mcs = [("MC_Contract_thorough.cfg", 1100), ("MC_Contract_arg_thorough.cfg", 900), ("MC_Contract_arg.cfg", 300)]
+        mcs = [("MC_Contract_thorough.cfg", 1100, 12), ("MC_Contract_arg_thorough.cfg", 900, 4), ("MC_Contract_arg.cfg", 300, 2)]
     if os.environ.get("VERIF_C09_SKIP_MC"):      # self-test aid only (mutant loops): the design check does not read /repo
         run.assumptions.append("MODEL CHECK SKIPPED (VERIF_C09_SKIP_MC)")
         mcs = []
@@ -190,8 +204,8 @@ def check(run):
         return run.tlc_gen("Gen_Contract.tla", "Gen_Contract.cfg", num, 14, name="gen%d" % k, seed=run.seed + 7 * k,
                            consts=consts, timeout=1500)
     tot = {}
-    with ThreadPoolExecutor(max_workers=len(plans) + 1) as ex:
-        mcf = ex.submit(lambda: [run.tlc_mc("Contract.tla", cfg, timeout=to, workers=12) for cfg, to in mcs])
+    with ThreadPoolExecutor(max_workers=len(plans) + len(mcs) + 1) as ex:
+        mcf = [ex.submit(run.tlc_mc, "Contract.tla", cfg, timeout=to, workers=wk) for cfg, to, wk in mcs]
         gens = [ex.submit(gen, k) for k in range(len(plans))]
         # (3)-(4) conformance, while the model check is still running
         behsets = []
@@ -208,7 +222,8 @@ def check(run):
             base += len(behs)
             for kk, v in t.items():
                 tot[kk] = tot.get(kk, 0) + v
-        mcf.result()
+        for f in mcf:
+            f.result()
     run.cov["driver_counters"] = tot
     if run.cov.get("refusals_by_other_call"):
         vp.log("NOTE property=C09: %d refusal(s) came from the other of the two calls (State.VerifyTx / State.DoTx) than the "
